@@ -45,10 +45,15 @@ Check C16_roundtrip_row :
   forallb (fun l => val_ok (rl_ty l) (rl_val l)) ls = true ->
   gen_ser_row_by_name d cols = Ok cells -> gen_typeck_row_by_name ls cols = Ok tt ->
   gen_deser_row_by_name ls cols cells = Ok (map rback_value ls).
-Check C16_excess_missing_ser_row :
-  forall d cols, rdesc_wf d = true ->
+Check C16_excess_missing_ser_row_partial :
+  forall d cols,
+  nodupb (map rl_name (rd_leaves d)) = true -> has_empty_flatten d = false ->
   outcome_of (gen_ser_row_by_name d cols) = doc_ser_row_by_name d cols /\
   gen_ser_row_by_name d cols <> Err EPanic.
+Check C16_excess_missing_ser_row_refuted :
+  exists d cols,
+  nodupb (map rl_name (rd_leaves d)) = true /\ known_empty_flatten d cols = true /\
+  gen_ser_row_by_name d cols = Ok [] /\ doc_ser_row_by_name d cols = Reject.
 Check C16_excess_missing_typeck_row :
   forall ls cols,
   NoDup (map rl_name (filter (fun f => negb (rl_skip f)) ls)) ->
@@ -82,6 +87,32 @@ Check C16_ordered_typeck_row :
 Check C16_ordered_ser_row :
   forall d cols, rordered_plain d = true ->
   outcome_of (gen_ser_row_ordered d cols) = doc_ser_row_ordered d cols.
+Check C16_ordered_deser_value :
+  forall d db cells, vordered_plain d = true ->
+  NoDup (map vf_name (nonskipped (vd_fields d))) -> doc_typeck_value_ordered d db = true ->
+  outcome_of (gen_deser_value_ordered d db cells) =
+    match all_some (map (fun f => doc_field_value f (udt_items db cells)) (vd_fields d)) with
+    | Some vs => Accept vs
+    | None => Reject
+    end /\
+  gen_deser_value_ordered d db cells <> Err EPanic.
+Check C16_ordered_deser_row :
+  forall ls cols cells,
+  NoDup (map rl_name (filter (fun f => negb (rl_skip f)) ls)) ->
+  List.length cells = List.length cols -> doc_typeck_row_ordered ls cols = true ->
+  outcome_of (gen_deser_row_ordered false ls cols cells) =
+    match all_some (map (fun f => doc_row_field_value f (combine cols cells)) ls) with
+    | Some vs => Accept vs
+    | None => Reject
+    end /\
+  gen_deser_row_ordered false ls cols cells <> Err EPanic.
+Check C16_ordered_allow_missing_sound :
+  forall d db cells, vd_snc d = false ->
+  gen_ser_value_ordered d db = Ok cells ->
+  exists used p rest, subseq used (nonskipped (vd_fields d)) /\
+    (forall f, In f (nonskipped (vd_fields d)) -> ~ In f used -> vf_am f = true) /\
+    db = p ++ rest /\ map fst p = map vf_name used /\ cells = map vf_val used /\
+    (vd_forbid d = true -> rest = []).
 Check C16_roundtrip_ordered_value :
   forall d db cells, vvals_ok d = true ->
   gen_ser_value_ordered d db = Ok cells ->
@@ -98,12 +129,16 @@ Print Assumptions C16_excess_missing_typeck_value.
 Print Assumptions C16_excess_missing_deser_value.
 Print Assumptions C16_by_name_ser_row.
 Print Assumptions C16_roundtrip_row.
-Print Assumptions C16_excess_missing_ser_row.
+Print Assumptions C16_excess_missing_ser_row_partial.
+Print Assumptions C16_excess_missing_ser_row_refuted.
 Print Assumptions C16_excess_missing_typeck_row.
 Print Assumptions C16_excess_missing_deser_row.
 Print Assumptions C16_ordered_typeck_value.
 Print Assumptions C16_ordered_ser_value.
 Print Assumptions C16_ordered_typeck_row.
 Print Assumptions C16_ordered_ser_row.
+Print Assumptions C16_ordered_deser_value.
+Print Assumptions C16_ordered_deser_row.
+Print Assumptions C16_ordered_allow_missing_sound.
 Print Assumptions C16_roundtrip_ordered_value.
 Print Assumptions C16_roundtrip_ordered_row.
